@@ -46,6 +46,11 @@ type ConcCase struct {
 	Tasks   [][]ROp      `json:"tasks"`
 	Reuse   []bool       `json:"reuse,omitempty"` // per task: keep one postings list/iterator and pass it as prealloc
 	Merge   *ConcMerge   `json:"merge,omitempty"`
+	// Build: one more task builds the batch of a world segment again with New
+	// while the others read and merge (builder, merger and readers share the
+	// compression helpers and package-level state); its bytes must equal the
+	// bytes of the build done alone. 0: none, k>0: world segment (k-1) mod len.
+	Build int `json:"build,omitempty"`
 }
 
 func init() {
@@ -79,6 +84,9 @@ func genConcCase(t *rapid.T, prop string) *Case {
 			m.Others = append(m.Others, rapid.IntRange(0, 5).Draw(t, "other"))
 		}
 		cc.Merge = m
+	}
+	if rapid.IntRange(0, 3).Draw(t, "withbuilder") == 0 {
+		cc.Build = 1 + rapid.IntRange(0, 3).Draw(t, "buildseg")
 	}
 	if rapid.IntRange(0, 2).Draw(t, "prelude") == 0 {
 		p := &ConcPrelude{FaultFrom: rapid.IntRange(0, 40).Draw(t, "faultfrom"), Kind: rapid.IntRange(0, NumReadFaultKinds-1).Draw(t, "faultkind")}
@@ -236,6 +244,19 @@ func runConcCase(c *Case, env *Env) *Result {
 			mergeGot = wr.Buf
 		})
 	}
+	var buildGot, buildWant []byte
+	var buildErr error
+	var buildPanic *PanicInfo
+	if cc.Build > 0 {
+		bws := w.Segs[(cc.Build-1)%len(w.Segs)]
+		if bws.Kind == model.Built && len(bws.Docs) <= 300 {
+			buildWant = bws.Bytes
+			bodies = append(bodies, func(int) {
+				buildGot, buildErr, buildPanic = buildBytes(bws.Def, bws.Idx, w.DV, sched)
+			})
+			res.probe("concurrent-builder")
+		}
+	}
 	res.probeN("re-entrant-nested-op", nested)
 	if h := sched.Run(bodies, 30*time.Second); h != nil {
 		if h.MutexBlocked {
@@ -278,6 +299,16 @@ func runConcCase(c *Case, env *Env) *Result {
 		}
 		if !bytes.Equal(mergeGot, wantMerge) {
 			res.Fail = mismatch("C09", "concurrent", "merge-output", fmt.Sprintf("a merge running concurrently with %d reader tasks wrote %d bytes differing from its solo output (%d bytes) at offset %d", len(cc.Tasks), len(mergeGot), len(wantMerge), firstDiff(mergeGot, wantMerge)))
+			return res
+		}
+	}
+	if buildWant != nil {
+		if buildPanic != nil || buildErr != nil {
+			res.Fail = apiFail("C14", "build-history", "New concurrently with readers/merger", buildPanic, buildErr)
+			return res
+		}
+		if !bytes.Equal(buildGot, buildWant) {
+			res.Fail = mismatch("C14", "build-history", "concurrent", fmt.Sprintf("a batch built while %d reader tasks (and possibly a merge) were running differs from its build alone at byte %d (%d vs %d bytes)", len(cc.Tasks), firstDiff(buildGot, buildWant), len(buildGot), len(buildWant)))
 			return res
 		}
 	}
